@@ -7,6 +7,6 @@ CONSTANTS
   CheckMac = TRUE
   ClearFresh = TRUE
   WalkLen = 16
-  Sids = {1, 2, 3, 4, 5, 6, 7}
+  Sids = {1, 2, 3, 4, 5, 6, 7, 8}
 INVARIANTS WalkComplete AuxTransparent
 CHECK_DEADLOCK FALSE
